@@ -105,6 +105,32 @@ class _StringFold(ast.NodeTransformer):
         self.generic_visit(node)
         return node
 
+    def visit_Call(self, node: ast.Call) -> ast.AST:
+        """len(b'PATCH') -> 5"""
+        self.generic_visit(node)
+        if isinstance(node.func, ast.Name) and node.func.id == "len" and len(node.args) == 1 and not node.keywords and isinstance(node.args[0], ast.Constant) \
+                and isinstance(node.args[0].value, (str, bytes)):
+            self.hits += 1
+            return ast.copy_location(ast.Constant(len(node.args[0].value)), node)
+        return node
+
+    def visit_JoinedStr(self, node: ast.JoinedStr) -> ast.AST:
+        """f'{x}{'_mirror'}' -> f'{x}_mirror' : a literal string placed in a replacement field is that text"""
+        self.generic_visit(node)
+        parts: list[ast.expr] = []
+        for v in node.values:
+            if isinstance(v, ast.FormattedValue) and v.conversion == -1 and v.format_spec is None and isinstance(v.value, ast.Constant) and isinstance(v.value.value, str):
+                v = ast.Constant(v.value.value)
+                self.hits += 1
+            if isinstance(v, ast.Constant) and isinstance(v.value, str) and parts and isinstance(parts[-1], ast.Constant) and isinstance(parts[-1].value, str):
+                parts[-1] = ast.Constant(parts[-1].value + v.value)
+            else:
+                parts.append(v)
+        node.values = parts
+        if len(parts) == 1 and isinstance(parts[0], ast.Constant):
+            return ast.copy_location(parts[0], node)
+        return node
+
     def visit_BinOp(self, node: ast.BinOp) -> ast.AST:
         self.generic_visit(node)
         if isinstance(node.op, ast.Add) and isinstance(node.left, ast.Constant) and isinstance(node.right, ast.Constant) \
@@ -833,6 +859,8 @@ def _restore_equivalent(repo: Repo, census: dict, report: dict[str, object]) -> 
             for n_ in ast.walk(ast.parse(src_)):
                 if isinstance(n_, ast.Call) and isinstance(n_.func, ast.Name):
                     all_ref_kw |= {(n_.func.id, kw_.arg) for kw_ in n_.keywords}
+                elif isinstance(n_, ast.Call) and isinstance(n_.func, ast.Attribute):
+                    all_ref_kw |= {("." + n_.func.attr, kw_.arg) for kw_ in n_.keywords}
     for mi in repo.modules.values():
         known = census.get(mi.name)
         if known is None:
@@ -894,7 +922,86 @@ def _bound_in(fn: ast.FunctionDef) -> set[str]:
         {n.id for n in ast.walk(fn) if isinstance(n, ast.Name) and isinstance(n.ctx, ast.Store)}
 
 
-def _new_constants(mi: ModuleInfo, known_globals: set[str]) -> dict[str, ast.AST]:
+def _specialise_equalities(fn: ast.FunctionDef) -> int:
+    """if X == c: BODY   ->   BODY with the loads of X replaced by c, when X is a call-free name / attribute chain, c a str or int literal, and
+    BODY stores to none of the names X is built from"""
+    done = 0
+    for st in [n for n in ast.walk(fn) if isinstance(n, ast.If)]:
+        t = st.test
+        if not (isinstance(t, ast.Compare) and len(t.ops) == 1 and isinstance(t.ops[0], ast.Eq) and isinstance(t.comparators[0], ast.Constant)
+                and type(t.comparators[0].value) in (str, int) and isinstance(t.left, (ast.Name, ast.Attribute)) and dotted(t.left)):
+            continue
+        text = unparse(t.left)
+        roots = {n.id for n in ast.walk(t.left) if isinstance(n, ast.Name)}
+        if any(isinstance(x, ast.Name) and isinstance(x.ctx, (ast.Store, ast.Del)) and x.id in roots for b in st.body for x in ast.walk(b)):
+            continue
+        if any(isinstance(x, ast.Attribute) and isinstance(x.ctx, (ast.Store, ast.Del)) and unparse(x) == text for b in st.body for x in ast.walk(b)):
+            continue
+        const = t.comparators[0]
+
+        class _S(ast.NodeTransformer):
+            def visit_Attribute(self, node: ast.Attribute) -> ast.AST:
+                nonlocal done
+                if isinstance(node.ctx, ast.Load) and unparse(node) == text:
+                    done += 1
+                    return ast.copy_location(ast.Constant(const.value), node)
+                self.generic_visit(node)
+                return node
+
+            def visit_Name(self, node: ast.Name) -> ast.AST:
+                nonlocal done
+                if isinstance(node.ctx, ast.Load) and node.id == text:
+                    done += 1
+                    return ast.copy_location(ast.Constant(const.value), node)
+                return node
+
+            def visit_FunctionDef(self, node: ast.FunctionDef) -> ast.AST:
+                return node
+
+            def visit_Lambda(self, node: ast.Lambda) -> ast.AST:
+                return node
+
+        st.body = [_S().visit(b) for b in st.body]
+    return done
+
+
+_READ_METHODS = {"get", "items", "keys", "values", "index", "count", "copy"}
+
+
+def _read_only_global(mi: ModuleInfo, name: str, repo: "Repo | None") -> bool:
+    """every mention of the module-level name is a read that cannot change the object: `x in N`, `N[k]` (load), `N.get(..)` / `.items()` ...,
+    `for _ in N`, `len(N)`, `sorted(N)`; it is not imported elsewhere, passed on, returned, aliased or stored into"""
+    if repo is not None and any(name in om.imports and om.imports[name][0] == mi.name for om in repo.modules.values() if om is not mi):
+        return False
+    parents: dict[int, ast.AST] = {}
+    for p_ in ast.walk(mi.tree):
+        for c_ in ast.iter_child_nodes(p_):
+            parents[id(c_)] = p_
+    uses = 0
+    for n in ast.walk(mi.tree):
+        if not (isinstance(n, ast.Name) and n.id == name):
+            continue
+        par = parents.get(id(n))
+        if isinstance(n.ctx, ast.Store):
+            if isinstance(par, (ast.Assign, ast.AnnAssign)) and parents.get(id(par)) is mi.tree:
+                continue  # its one module-level binding (checked by the caller)
+            return False
+        uses += 1
+        if isinstance(par, ast.Compare) and len(par.ops) == 1 and isinstance(par.ops[0], (ast.In, ast.NotIn)) and par.comparators[0] is n:
+            continue
+        if isinstance(par, ast.Subscript) and par.value is n and isinstance(par.ctx, ast.Load):
+            continue
+        if isinstance(par, ast.Attribute) and par.value is n and par.attr in _READ_METHODS and isinstance(parents.get(id(par)), ast.Call):
+            continue
+        if isinstance(par, (ast.For, ast.comprehension)) and par.iter is n:
+            continue
+        if isinstance(par, ast.Call) and isinstance(par.func, ast.Name) and par.func.id in ("len", "sorted", "tuple", "frozenset", "set", "list", "dict", "any", "all", "enumerate", "reversed") and n in par.args:
+            continue
+        return False
+    return uses > 0
+
+
+def _new_constants(mi: ModuleInfo, known_globals: set[str], repo: "Repo | None" = None) -> dict[str, ast.AST]:
     consts: dict[str, ast.AST] = {}
     for _round in range(3):
         for name, st in mi.assigns_all:
@@ -906,6 +1013,11 @@ def _new_constants(mi: ModuleInfo, known_globals: set[str]) -> dict[str, ast.AST
             if consts:
                 val = _ConstProp(consts).visit(copy.deepcopy(val))
             v = _const_value(val, known_globals | set(mi.imports))
+            if v is None and isinstance(val, (ast.List, ast.Set)) and val.elts and all(isinstance(e, ast.Constant) for e in val.elts) and _read_only_global(mi, name, repo):
+                v = ast.Tuple(list(val.elts), ast.Load())  # a list / set nobody can change is that tuple of literals
+            if v is None and isinstance(val, ast.Dict) and val.keys and all(isinstance(k_, ast.Constant) for k_ in val.keys) \
+                    and all(_const_value(x_, known_globals | set(mi.imports)) is not None for x_ in val.values) and _read_only_global(mi, name, repo):
+                v = val  # a lookup table nobody can change reads as its literal
             if v is not None:
                 consts[name] = v
     return consts
@@ -919,7 +1031,7 @@ def normalize_repo(repo: Repo) -> dict[str, object]:
         known = census.get(mi.name)
         if known is None:
             continue
-        consts0 = _new_constants(mi, set(known.get("globals", [])))
+        consts0 = _new_constants(mi, set(known.get("globals", [])), repo)
         if consts0:
             for fn in list(mi.functions.values()) + [m for c in mi.classes.values() for m in c.methods.values()]:
                 cp0 = _ConstProp({k: v for k, v in consts0.items() if k not in _bound_in(fn.node)})
@@ -966,7 +1078,7 @@ def normalize_repo(repo: Repo) -> dict[str, object]:
         if report.get("renamed_back"):
             _restore_equivalent(repo, {mi.name: known}, report)
         # ---- new constants
-        consts = _new_constants(mi, known_globals)
+        consts = _new_constants(mi, known_globals, repo)
         # ---- new helpers
         helpers_mod = {f.name: f for f in mi.functions.values() if f.qualname not in known_funcs and _plain(f)}
         all_fns: list[FunctionInfo] = list(mi.functions.values()) + [m for c in mi.classes.values() for m in c.methods.values()]
@@ -990,6 +1102,31 @@ def normalize_repo(repo: Repo) -> dict[str, object]:
                 for m in ci.methods.values():
                     if m.qualname not in known_funcs and m.is_static() and _plain(m):
                         spellings[f"{cname}.{m.name}"] = m
+            # new plain methods of the class a parameter is annotated with: `s.skip_to_line_end()` with `s: Scanner`
+            for a_ in fn.node.args.args + fn.node.args.kwonlyargs:
+                ann = a_.annotation
+                cname_ = ann.id if isinstance(ann, ast.Name) else (ann.value.strip("'\"") if isinstance(ann, ast.Constant) and isinstance(ann.value, str) else None)
+                if not cname_ or a_.arg in ("self", "cls"):
+                    continue
+                owners = [(om, om.classes[cname_]) for om in repo.modules.values() if cname_ in om.classes]
+                if len(owners) != 1:
+                    continue
+                om_, ci_ = owners[0]
+                known_o = set((census.get(om_.name) or {}).get("functions", []))
+                if not known_o:
+                    continue
+                if any(isinstance(n_, ast.Name) and n_.id == a_.arg and isinstance(n_.ctx, ast.Store) for n_ in ast.walk(fn.node)):
+                    continue  # the parameter is rebound: not necessarily that object any more
+                import builtins as _bi
+
+                here = set(mi.assigns) | set(mi.functions) | set(mi.classes) | set(mi.imports) | set(dir(_bi))
+                for m in ci_.methods.values():
+                    if m.qualname not in known_o and not m.name.startswith("__") and _plain(m) and not m.is_static() and not m.is_property() \
+                            and not any(m.name in sc.methods for sc in repo.all_classes() if sc is not ci_ and ci_ in repo.mro(sc)):
+                        # its body moves into this module: every global it reads must mean the same thing here
+                        free = {n_.id for n_ in ast.walk(m.node) if isinstance(n_, ast.Name) and isinstance(n_.ctx, ast.Load)} - _bound_in(m.node)
+                        if om_ is mi or all(g_ in here and (g_ in dir(_bi) or mi.imports.get(g_) == om_.imports.get(g_) and g_ in om_.imports) for g_ in free):
+                            spellings[f"{a_.arg}.{m.name}"] = m
             spellings = {k: v for k, v in spellings.items() if v is not fn}
             if consts:
                 cp = _ConstProp({k: v for k, v in consts.items() if k not in _bound_in(fn.node)})
@@ -1067,4 +1204,13 @@ def normalize_repo(repo: Repo) -> dict[str, object]:
                 used = used or any(cname in om.imports and om.imports[cname][0] == mi.name for om in repo.modules.values())
                 if not used and cname in mi.classes:
                     del mi.classes[cname]
+    # ---- inside an arm guarded by `X == <literal>` the expression X is that literal (after helpers have been folded in: an arm that forwards
+    # the tested value to a helper, `DataNode(keyword.value, ...)` under `keyword.value == "dw"`, reads `DataNode("dw", ...)`)
+    for mi in repo.modules.values():
+        if census.get(mi.name) is None:
+            continue
+        for fn in list(mi.functions.values()) + [m for c in mi.classes.values() for m in c.methods.values()]:
+            k_ = _specialise_equalities(fn.node)
+            if k_:
+                report.setdefault("specialised_under_equality", []).append(f"{fn.where}: {k_}")  # type: ignore[union-attr]
     return report
